@@ -270,7 +270,7 @@ func c1profile2(thorough bool) []*c1pkg {
 // --- profile 3: types and containers --------------------------------------------------------
 
 func c1profile3() []*c1pkg {
-	decls := "import \"fmt\"\n\ntype S struct {\n\tn int\n\tt string\n\tin *S\n}\n\nfunc (s *S) N() int {\n\treturn s.n\n}\n\nvar cnt int\n\nfunc next() int {\n\tcnt++\n\treturn cnt\n}\n\nvar objs = []*S{&S{}, &S{}, &S{}}\nvar objN int\n\nfunc obj() *S {\n\tobjN++\n\treturn objs[objN-1]\n}\n\n"
+	decls := "import \"fmt\"\n\ntype S struct {\n\tn int\n\tt string\n\tin *S\n}\n\nfunc (s *S) N() int {\n\treturn s.n\n}\n\nfunc (s *S) Diff(o *S) int {\n\treturn s.n - o.n\n}\n\nfunc (s *S) Plus(k int) *S {\n\treturn &S{n: s.n + k}\n}\n\nvar cnt int\n\nfunc next() int {\n\tcnt++\n\treturn cnt\n}\n\nvar objs = []*S{&S{}, &S{}, &S{}}\nvar objN int\n\nfunc obj() *S {\n\tobjN++\n\treturn objs[objN-1]\n}\n\n"
 	p := &c1pkg{name: "pc0000", decls: decls}
 	add := func(key, body string) {
 		p.snippets = append(p.snippets, c02indent(strings.TrimRight(body, "\n"), "\t"))
@@ -299,6 +299,7 @@ func c1profile3() []*c1pkg {
 	add("NaN and infinities in comparisons", "z := 0.0\nn := z / z\ni := 1 / z\nfmt.Println(n < 1, n <= 1, n > 1, n >= 1, n == n, n != n, 1 <= n, 1 >= n)\nfmt.Println(i > 1e308, -i < 0, i == i, i >= i, i <= -i)\nlo, hi, v := 0.0, 10.0, n\nif v >= lo && v <= hi {\n\tfmt.Println(\"in range\")\n} else {\n\tfmt.Println(\"out of range\")\n}\n")
 	add("op= and ++ evaluate the operands of their target once", "cnt = 0\nobjN = 0\nm := map[int]int{}\nm[next()] += 5\nm[next()]++\ns := []int{0, 0, 0, 0}\ns[next()] += 7\ns[next()-1]--\nobj().n += 4\nobj().n++\nobj().t += \"x\"\nfmt.Println(cnt, len(m), m[1], m[2], s, objN, objs[0].n, objs[1].n, objs[2].t)\n")
 	add("a store evaluates the operands of its target before the right-hand side", "cnt = 0\nobjN = 0\nm := map[int]int{}\nm[next()] = next()\ns := []int{0, 0, 0, 0, 0, 0}\ns[next()] = next()\nobj().n = next()\nfmt.Println(m[1], m[2], len(m), s, objs[0].n, cnt, objN)\n")
+	add("the receiver of a method call is evaluated before the arguments", "cnt = 0\nobjN = 0\nobjs[0].n, objs[1].n, objs[2].n = 1, 10, 100\nfmt.Println(obj().Diff(obj()), objN)\nobjN = 0\nfmt.Println(obj().Plus(objN).Plus(next()).Plus(next()*10).n, (&S{n: next()}).Plus(next()*10).n)\nobjs[0].n, objs[1].n, objs[2].n = 0, 0, 0\n")
 	add("named untyped constants take the type of their context", "const N = 10\nconst (\n\tRed = iota\n\tGreen\n\tBlue\n)\nvar f float64 = N\ng := 1.5\ng = N\nvar b byte = N\nvar c uint8 = Blue\ncs := []float64{Red, Green, Blue}\nx := N\nvar u uint32 = N\nfmt.Println(f/4, g/4, b+250, c-3, cs[1]/2, x/4, N/4, u-11)\n")
 	add("tuple assignment: operands first, then stores left to right", "s := []int{1, 2, 3}\nt := s[:1]\ns[0], t[0] = 7, 8\ni := 0\ns[i], i = 5, 1\ns[i], s[i+1] = s[i+1], s[i]\na := &S{}\nb := a\na.n, b.n = 1, 2\nm := map[string]int{}\nu := 0\nm[\"k\"], u, _ = 1, 2, 3\nq := []int{1, 2}\nq[0], q[1] = q[1], q[0]\nfmt.Println(s, t, i, a.n, m[\"k\"], u, q)\n")
 	add("range reads the live array", "s := []int{1, 2, 3, 4}\nt := s[1:]\nsum := 0\nfor i, v := range s {\n\tif i == 0 {\n\t\ts[2] = 30\n\t\tt[2] = 40\n\t}\n\tsum += v\n}\nsieve := make([]bool, 12)\nprimes := 0\nfor i, c := range sieve {\n\tif i < 2 || c {\n\t\tcontinue\n\t}\n\tprimes++\n\tfor j := i * 2; j < len(sieve); j += i {\n\t\tsieve[j] = true\n\t}\n}\nfmt.Println(sum, primes)\n")
